@@ -605,3 +605,35 @@ Qed.
 Lemma xyz2thetaphi_out_src_ok v :
   xyz2thetaphi_out_src atan2 Rmod (vx v) (vy v) (vz v) = Some (lon_of v, lat_of v).
 Proof. reflexivity. Qed.
+
+(* output stages of rotate, eq2sdss, sdss2eq translated from the source (arctan2 := Model.atan2, % := Model.Rmod,
+   atbound / atbound2 := the models of the callees) are the model's *)
+Lemma rotate_out_src_ok phi theta psi ra dec :
+  let v := euler_xyz (rotate_row phi theta psi) ra dec in
+  rotate_out_src atan2 Rmod phi theta psi ra dec (vx v) (vy v) (vz v) = Some (rotate_R phi theta psi ra dec).
+Proof.
+  intro v. rewrite rotate_R_is. unfold rotate_out_src, euler_R_gen, lat_by, lat_of, lon_of, fourpi, twopi. fold v.
+  unfold rotate_row, r_psi; simpl fst; simpl snd.
+  f_equal. repeat (try reflexivity; try lra; f_equal).
+Qed.
+
+Lemma eq2sdss_out_src_ok ra dec :
+  in_range ra eq2sdss_range1 = true -> in_range dec eq2sdss_range2 = true ->
+  let v := eq2sdss_xyz ra dec in
+  option_map Ok (eq2sdss_out_src atan2 (fun x lo hi => atbound atb_fuel x (lo, hi)) ra dec (vx v) (vy v) (vz v))
+  = Some (eq2sdss_R ra dec).
+Proof.
+  intros H1 H2 v. unfold eq2sdss_R. change eq2sdss_lat_atan2 with true. unfold eq2sdss_R_gen. rewrite H1, H2; simpl negb; cbv iota.
+  fold v. unfold eq2sdss_out_src, option_map, eq2sdss_atbound. f_equal. f_equal. f_equal. ring.
+Qed.
+
+Lemma sdss2eq_out_src_ok cl ce :
+  in_range cl sdss2eq_range1 = true -> in_range ce sdss2eq_range2 = true ->
+  let v := sdss_unit (cl * D2R) (ce * D2R) in
+  option_map Ok (sdss2eq_out_src atan2 atbound2 cl ce (vx v) (vy v) (vz v)) = Some (sdss2eq_R cl ce).
+Proof.
+  intros H1 H2 v. unfold sdss2eq_R. change sdss2eq_lat_atan2 with true. unfold sdss2eq_R_gen, lat_by. rewrite H1, H2; simpl negb; cbv iota.
+  fold v. unfold sdss2eq_out_src, option_map, lat_of, lon_of.
+  destruct (atbound2 (atan2 (vz v) (sqrt (vx v * vx v + vy v * vy v)) * R2D) ((atan2 (vy v) (vx v) + sdss_node) * R2D)) as [d r].
+  reflexivity.
+Qed.
